@@ -73,7 +73,7 @@ static InterrogateFunctionWrapper *make_wrapper() {
   w->_parameters.vstl_make_abstract(nondet_size_t());
   return w;
 }
-static bool str_wf(const std::string &s) { return s._n <= std::string::CAP && s._d[s._n] == 0; }
+static bool str_wf(const std::string &s) { return !s._trunc && s._n <= std::string::CAP && s._d[s._n] == 0; }
 
 #define INR(o, VEC) (vin_n >= 0 && (size_t)vin_n < (o)->VEC._n)
 // the entry at the arbitrary ghost index (see vstl/vector): proving "position == ghost index => result
